@@ -23,6 +23,17 @@ def filter_like(prop, tier, seed, replay, unk):
     wd = workdir(prop)
     bindir = build_harness()
     out = os.path.join(wd, "rec")
+    if replay and json.load(open(replay)).get("driver") == "fuzz":
+        # C18 on mutated bytes: the replay carries the bytes
+        rep = json.load(open(replay))
+        cf = os.path.join(wd, "cases.json")
+        json.dump({"cases": rep["cases"]}, open(cf, "w"))
+        sh("%s/drive-codec fuzz --cases %s --out %s" % (bindir, cf, out), timeout=600)
+        bad, _, _, _ = tlc_trace("TraceWire.tla", "TraceWire.cfg", os.path.join(out, "trace.ndjson"), wd, timeout=600)
+        hit = [b for b in bad if b[0] == prop]
+        if hit:
+            print("VIOLATION property=%s replay=%s" % (prop, replay))
+        return 1 if hit else 0
     if replay:
         rep = json.load(open(replay))
         cf = os.path.join(wd, "cases.json")
@@ -82,6 +93,31 @@ def filter_like(prop, tier, seed, replay, unk):
         print("VIOLATION property=%s replay=%s" % (prop, path))
         log("  kinds=%s bad=%s default-result=%s validated-result=%s" % (
             r["kinds"], r["bad"], r["res"][0], r["res"][3]))
+    fuzz_stats = {}
+    if not replay and unk:
+        # C18 also on mutated messages: the relations between option settings, judged by TraceWire
+        out3 = os.path.join(wd, "rec-fuzz")
+        rc, o = sh("%s/drive-codec fuzz --inputs %d --seed %d --out %s" % (
+            bindir, 12000 if tier == "quick" else 400000, seed + 2, out3), timeout=3000)
+        ft = os.path.join(out3, "trace.ndjson")
+        fbad, _, ftotal, _ = tlc_trace("TraceWire.tla", "TraceWire.cfg", ft, wd, timeout=6000)
+        fhit = [b for b in fbad if b[0] == prop]
+        if fhit:
+            frecs = read_records(ft)
+            for (p, line, _, _) in fhit[:3]:
+                r = frecs[line - 1]
+                os.makedirs(REPLAYS, exist_ok=True)
+                path = os.path.join(REPLAYS, "%s-%d-fuzz-%s.json" % (prop, seed, digest(r.get("bytes", line))))
+                json.dump({"property": prop, "kind": "fuzz-bytes", "driver": "fuzz",
+                           "cases": [{"bytes": r["bytes"]}], "record": {"n": r["n"], "res": r["res"]}},
+                          open(path, "w"), indent=1)
+                print("VIOLATION property=%s replay=%s" % (prop, path))
+            viol = viol + [None] * len(fhit)
+        fuzz_stats = {"mutated_inputs": ftotal, "rejected": len(fhit),
+                      "rule": "every mutated / random input decoded under the 17 option settings; TraceWire!OkFzC18 "
+                              "judges the relations (validation only filters, key / unknown-data change nothing, "
+                              "opt-out only adds, no context = default)"}
+        total_extra = ftotal
     if not replay:
         if recs is None:
             recs = read_records(tracefile)
@@ -98,7 +134,7 @@ def filter_like(prop, tier, seed, replay, unk):
                     "verifiable attribute wrong) decoded by the real decoder under 17 option settings; "
                     "non-trivial = contains at least one integrity/fingerprint attribute; distinct by "
                     "(sequence, wrong index); sequences enumerated exhaustively up to `exhaustive_upto`",
-            "driver": stats, "model": minfo,
+            "driver": stats, "model": minfo, **({"mutated_messages": fuzz_stats} if fuzz_stats else {}),
             "exhaustive": bool(tier == "thorough" and not unk),
         }, time.time() - t0, len(viol), ASSUME)
     return 1 if viol else 0
